@@ -91,11 +91,19 @@ class WP(PartProcessor):
     def get_work_order_capacity(self, tag):
         return self.wo_cap
 
+    n_started = 0
+
+    def current_cost(self):
+        # the cost of an order depends on the machine's state when the order starts: how many orders it has had
+        # and whether it is still running
+        return self.wo_cost + 0.5 * (self.n_started % 3) + (1 if not self.is_operational() else 0)
+
     def get_work_order_cost(self, tag):
-        return self.wo_cost
+        return self.current_cost()
 
     def start_work(self, tag):
-        self.model.wo_started.append((self.env.now, self.name, self.wo_dur, self.wo_cost))
+        self.model.wo_started.append((self.env.now, self.name, self.wo_dur, self.current_cost()))
+        self.n_started += 1
         super().start_work(tag)
 
     def end_work(self, tag):
@@ -153,6 +161,7 @@ class Model:
         self.action_log = []
         self.group_of = {}
         self.pre = []
+        self.late_assets = []
         self.wo_started = []
         self.wo_ended = []
         for r, c in spec.get('res', {}).items():
@@ -275,8 +284,8 @@ class Model:
                 P.shutdown()
                 env.schedule_event(env.now + dur, -3, P.restore_functionality, EventType.RESTORE, 'generated restore')
         elif kind == 'wo':
-            def f(P=D[a[3]]):
-                r = self.maint.create_work_order(P)
+            def f(P=D[a[3]], tag=(a[4] if len(a) > 4 else None)):
+                r = self.maint.create_work_order(P, tag)
                 note(P.name, r)
         elif kind == 'block':
             def f(dev=D[a[3]], v=a[4]):
@@ -298,6 +307,15 @@ class Model:
                 note(P.name, v)
                 P.offset_next_cycle_time(v)
                 self.pending_offset[P.name] = self.pending_offset.get(P.name, 0) + v
+        elif kind == 'newsink':
+            def f(ups=[D[u] for u in a[3]], name=a[4]):
+                # an asset created after the simulation has started (between two runs)
+                note(name)
+                self.D[name] = Sink(name, ups, 0.5, collect_parts=True)
+                self.D[name]._received_part_callbacks.insert(0, self._first)
+                self.kinds[name] = 'K'
+                self.specs[name] = {'k': 'K', 'n': name, 'c': 0.5, 'up': [u.name for u in ups]}
+                self.late_assets.append(self.D[name])
         elif kind == 'rewire_add':
             def f(x=D[a[3]], u=D[a[4]]):
                 if u not in x.upstream:     # W9: never a duplicate
